@@ -111,7 +111,14 @@ func newScopeRegistryWithShardCount(
 }
 
 func (r *scopeRegistry) Report(reporter StatsReporter) {
-	defer r.purgeIfRootClosed()
+	// Only a pass that starts after the root has been closed (the final pass
+	// made by Close) may unregister and clear every scope when it is done. A
+	// periodic pass that was already under way when Close set the flag has
+	// visited some scopes before the flag was set; purging after it would
+	// drop what was recorded on them since.
+	if r.root.closed.Load() {
+		defer r.purgeIfRootClosed()
+	}
 	r.reportInternalMetrics()
 
 	for _, subscopeBucket := range r.subscopes {
@@ -134,7 +141,11 @@ func (r *scopeRegistry) Report(reporter StatsReporter) {
 }
 
 func (r *scopeRegistry) CachedReport() {
-	defer r.purgeIfRootClosed()
+	// See Report: only a pass that starts after the root has been closed may
+	// purge the registry when it is done.
+	if r.root.closed.Load() {
+		defer r.purgeIfRootClosed()
+	}
 	r.reportInternalMetrics()
 
 	for _, subscopeBucket := range r.subscopes {
